@@ -85,6 +85,10 @@ type ProxyOpts struct {
 	ClientSecret  string
 	Cluster       string
 	TemplateVars  map[string]string // exported as SSO_CONFIG_<KEY> while the configuration is loaded
+	// ViaEnv: every option is handed to sso-proxy through its documented environment variable and the
+	// configuration is produced by proxy.LoadConfig(), as the real binary does, instead of by assigning
+	// to the Configuration struct. (Process environment is global: serialised by envMu.)
+	ViaEnv bool
 }
 
 // ProxyStack is a running sso-proxy built exactly the way cmd/sso-proxy builds it.
@@ -327,6 +331,49 @@ func NewProxyStack(o ProxyOpts) (*ProxyStack, error) {
 	if o.Signer {
 		ps.SignerPEM = SignerKeyPEM()
 		cfg.RequestSignerConfig.Key = ps.SignerPEM
+	}
+	if o.ViaEnv {
+		ev := map[string]string{
+			"SESSION_COOKIE_NAME": o.CookieName, "SESSION_COOKIE_SECRET": ps.SecretB64,
+			"SESSION_COOKIE_SECURE": fmt.Sprint(o.CookieSecure), "SESSION_COOKIE_HTTPONLY": fmt.Sprint(!o.HTTPOnlyOff),
+			"SESSION_TTL_LIFETIME": o.Lifetime.String(), "SESSION_TTL_VALID": o.Valid.String(), "SESSION_TTL_GRACEPERIOD": o.Grace.String(),
+			"CLIENT_ID": o.ClientID, "CLIENT_SECRET": o.ClientSecret,
+			"PROVIDER_URL_EXTERNAL": o.ProviderURL,
+			"UPSTREAM_CONFIGFILE": file, "UPSTREAM_CLUSTER": o.Cluster, "UPSTREAM_SCHEME": "http", "UPSTREAM_DEFAULT_PROVIDER": o.DefaultSlug,
+			"METRICS_STATSD_HOST": "127.0.0.1", "LOGGING_ENABLE": "true",
+		}
+		if o.CookieDomain != "" {
+			ev["SESSION_COOKIE_DOMAIN"] = o.CookieDomain
+		}
+		if o.InternalURL != "" {
+			ev["PROVIDER_URL_INTERNAL"] = o.InternalURL
+		}
+		if len(o.DefaultGroups) > 0 {
+			ev["UPSTREAM_DEFAULT_GROUPS"] = strings.Join(o.DefaultGroups, ",")
+		}
+		if len(o.DefaultDoms) > 0 {
+			ev["UPSTREAM_DEFAULT_EMAIL_DOMAINS"] = strings.Join(o.DefaultDoms, ",")
+		}
+		if len(o.DefaultAddrs) > 0 {
+			ev["UPSTREAM_DEFAULT_EMAIL_ADDRESSES"] = strings.Join(o.DefaultAddrs, ",")
+		}
+		if o.Signer {
+			ev["REQUESTSIGNER_KEY"] = ps.SignerPEM
+		}
+		envMu.Lock()
+		for k, v := range ev {
+			os.Setenv(k, v)
+		}
+		loaded, lerr := proxy.LoadConfig()
+		for k := range ev {
+			os.Unsetenv(k)
+		}
+		envMu.Unlock()
+		if lerr != nil {
+			ps.Close()
+			return nil, fmt.Errorf("proxy.LoadConfig: %v", lerr)
+		}
+		cfg = loaded
 	}
 	if err := cfg.Validate(); err != nil {
 		ps.Close()
